@@ -47,6 +47,11 @@ class G:
             c = 5 * 10 ** r.randrange(0, 38) + r.choice([-1, 0, 0, 1])
         elif k == 8:
             c = 2 ** 64 * r.randrange(1, 2 ** 40) + r.choice([-1, 0, 1])
+        elif k == 9:
+            # limits of the narrower machine integers (fast paths cast through them), possibly scaled
+            c = 2 ** r.choice([7, 8, 15, 16, 31, 32, 53, 63, 63, 64, 64, 96, 126]) + r.choice([-1, 0, 0, 1])
+            if r.random() < 0.3:
+                c *= 10 ** r.randrange(1, 19)
         else:
             c = r.getrandbits(r.randrange(1, 128))
         c = self.clamp(c)
@@ -92,6 +97,23 @@ class G:
         if q >= p and abs(c) * 10 ** (q - p) <= MAX:
             return (c, p), (c * 10 ** (q - p), q)
         return (c, p), (c, p)
+
+    def wrap_pair(self):
+        """(a, p), (b, q): scaling a to q digits overflows an i128 and wraps (mod 2^128) exactly onto b — or next to it"""
+        r = self.r
+        for _ in range(50):
+            k = r.randrange(1, 19)
+            p = r.randrange(0, 19 - k)
+            a = r.choice([2 ** r.randrange(100, 127) + r.randrange(0, 4), self.coeff(), r.randrange(MAX // 10 ** k + 1, MAX)])
+            a = self.clamp(a) * r.choice([1, -1])
+            if abs(a) * 10 ** k <= MAX:
+                continue
+            w = (a * 10 ** k + 2 ** 127) % 2 ** 128 - 2 ** 127
+            if abs(w) <= MAX:
+                b = self.clamp(w + r.choice([0, 0, 0, 1, -1]))
+                pair = ((a, p), (b, p + k))
+                return pair if r.random() < 0.5 else (pair[1], pair[0])
+        return self.dec(), self.dec()
 
     # ---------------------------------------------------------------- C01
     def c01(self, n):
@@ -448,6 +470,8 @@ class G:
                 elif k == 2:  # neighbours
                     (a, p), (b, q) = self.same_value_pair()
                     b = self.clamp(b + r.choice([-1, 1]))
+                elif k == 3:  # alignment overflow that wraps onto the other coefficient
+                    (a, p), (b, q) = self.wrap_pair()
                 else:
                     (a, p), (b, q) = self.dec(), self.dec()
                 yield f"heven {'rkyv' if rk else 'cmp'} {a} {p} {b} {q}"
@@ -477,7 +501,13 @@ class G:
             if op == "hash" or r.random() < 0.7:
                 yield f"heven {op} {a} {p}"
             else:
-                (a, p), (b, q) = self.same_value_pair()
+                kk = r.randrange(4)
+                if kk == 0:      # different values that a wrapping comparison would call equal
+                    (a, p), (b, q) = self.wrap_pair()
+                elif kk == 1:    # arbitrary pair
+                    (a, p), (b, q) = self.dec(), self.dec()
+                else:
+                    (a, p), (b, q) = self.same_value_pair()
                 yield f"heven hasheq {a} {p} {b} {q}"
 
     # ---------------------------------------------------------------- C10
@@ -500,6 +530,11 @@ class G:
                     a, b = self.small(), self.small()
                 elif k == 3:
                     b = r.choice([10 ** q, -(10 ** q), 0])
+                elif k == 4:  # limits of the narrower machine integers against ±1 and other tiny divisors (MIN % -1 traps)
+                    w = r.choice([7, 15, 31, 63, 63, 63, 64, 32])
+                    a = r.choice([-(2 ** w), 2 ** w, -(2 ** w) + 1, 2 ** w - 1, -(2 ** w) - 1])
+                    b = r.choice([-1, -1, 1, -2, 3, -3])
+                    q = p if r.random() < 0.7 else q
                 form = r.choice(FORMS5 if op == "rem" else FORMS4)
                 yield f"{self.mode()} {op} {form} {a} {p} {b} {q}"
             else:
@@ -572,8 +607,19 @@ class G:
             yield f"heven {op} {a} {p}"
 
     # ---------------------------------------------------------------- C13
+    def float_binades(self):
+        """every binade of both formats (all exponent fields), with the smallest, the largest and a random significand, both signs:
+        an off-by-one in any exponent guard of the conversion shows up here"""
+        r = self.r
+        for fb, eb, op in ((52, 11, "fromf64"), (23, 8, "fromf32")):
+            for be in range(0, 2 ** eb - 1):
+                for frac in (0, (1 << fb) - 1, r.getrandbits(fb)):
+                    sign = r.getrandbits(1)
+                    yield f"heven {op} {(sign << (fb + eb)) | (be << fb) | frac}"
+
     def c13(self, n):
         r = self.r
+        yield from self.float_binades()
         specials64 = [0, 1 << 63, 0x7ff0000000000000, 0xfff0000000000000, 0x7ff8000000000000, 0x7ff0000000000001, 1,
                       0x000fffffffffffff, 0x0010000000000000, 0x3ff0000000000000, 0x47e0000000000000,
                       0x47dfffffffffffff, 0xc7e0000000000000, 0x7fefffffffffffff]
@@ -846,10 +892,49 @@ class G:
                             yield f"{md} divr {form} {i} 0 {a} {p} {nn}"
 
     # ---------------------------------------------------------------- C19
+    def mode_sensitive(self):
+        """a request (no mode token, tokens joined by `_`) whose result depends on the rounding mode in effect:
+        every operation family that consults the thread's default mode, in each of its branches"""
+        r = self.r
+        k = r.randrange(12)
+        a = r.choice([1, -1]) * r.choice([10001, 10005, 15, 25, 35, 1, 2, 7, 29, 3, 12345, 10501, r.randrange(1, 10 ** 6)])
+        b = r.choice([1, -1]) * r.choice([3, 7, 6, 9, 11, 300, 13, r.randrange(2, 1000)])
+        if k == 0:     # div_rounded, dividend has more digits than result + divisor (second division by 10^shift)
+            req = f"divr vv {a} {r.randrange(3, 8)} {b} 0 {r.randrange(0, 3)}"
+        elif k == 1:   # div_rounded, dividend scaled up
+            req = f"divr vv {a} 0 {b} {r.randrange(0, 3)} {r.randrange(1, 19)}"
+        elif k == 2:   # div_rounded, equal scales
+            p = r.randrange(0, 5); n = r.randrange(0, 5); q = max(0, p - n)
+            req = f"divr vv {a} {q + n} {b} {q} {n}"
+        elif k == 3:
+            req = f"mulr vv {a} {r.randrange(1, 6)} {b} {r.randrange(1, 6)} {r.randrange(0, 2)}"
+        elif k == 4:
+            req = f"quant {a} {r.randrange(2, 6)} {b} {r.randrange(0, 2)}"
+        elif k == 5:
+            req = f"{r.choice(['div', 'cdiv'])} vv {a} {r.randrange(0, 4)} {b} {r.randrange(0, 4)}"
+        elif k == 6:   # product with more than 18 fractional digits
+            req = f"{r.choice(['mul', 'cmul'])} vv {a} {r.randrange(10, 19)} {b} {r.randrange(10, 19)}"
+        elif k == 7:   # round, also far below the value (result is 0 or ±10^-n depending on the mode)
+            req = f"{r.choice(['round', 'cround'])} {a} {r.randrange(1, 6)} {r.choice([0, 0, 1, -1, -5, -37, -38])}"
+        elif k == 8:
+            req = f"fmt {a} {r.randrange(2, 7)} - - - - - {r.randrange(0, 2)}"
+        elif k == 9:
+            ty = r.choice(["i32", "u8", "i64", "i128"]); i = abs(b) % 100 + 2
+            req = f"idivr {ty} r vv {a} {r.randrange(3, 8)} {i} {r.randrange(0, 3)}"
+        elif k == 10:
+            ty = r.choice(["i32", "u8", "i64", "i128"]); i = abs(b) % 100 + 2
+            req = f"iquant {ty} r vv {a} {r.randrange(1, 6)} {i}"
+        else:
+            ty = r.choice(["i32", "u16", "i64"]); i = abs(b) % 100 + 2
+            req = f"iidivr {ty} vv {abs(a) % 30000} {i} {r.randrange(0, 6)}"
+        return req.replace(" ", "_")
+
     def c19_exhaustive(self, steps):
         """all schedules of `steps` operations over 2 threads with the op alphabet below"""
         import itertools
         alphabet = ["s1:up", "s1:down", "s1:heven", "s2:floor", "s2:heven", "g1", "g2", "p1", "p2"]
+        if steps >= 4:      # thorough tier: also one mode-sensitive division per thread in the alphabet
+            alphabet += ["x1:divr_vv_10001_4_3_0_2", "x2:round_3_1_-38"]
         for L in range(1, steps + 1):
             for combo in itertools.product(alphabet, repeat=L):
                 yield "threads " + " ".join(combo)
@@ -861,11 +946,11 @@ class G:
             ops = []
             for _ in range(r.randrange(1, 14)):
                 t = r.randrange(1, nt + 1)
-                k = r.randrange(3)
-                k = r.randrange(4)
+                k = r.randrange(6)
                 if k == 0: ops.append(f"s{t}:{r.choice(MODES + ['heven', 'heven'])}")
                 elif k == 1: ops.append(f"g{t}")
                 elif k == 3: ops.append(f"p{t}")
+                elif k >= 4: ops.append(f"x{t}:{self.mode_sensitive()}")
                 else:
                     c = r.choice([25, -25, 15, -15, 21, -21, 29, 35, -35, 5, -5, 1, -1, self.small()])
                     ops.append(f"r{t}:{c}:1:0")
@@ -875,11 +960,14 @@ class G:
     def c20(self, n):
         """overflow-edge heavy mix over every operation family"""
         r = self.r
-        per = max(1, n // 12)
+        per = max(1, n // 15)
+        yield from self.float_binades()
         for g in (self.c01, self.c02, self.c03, self.c04, self.c05, self.c10, self.c15, self.c07, self.c11, self.c08,
-                  self.c14, self.c09):
+                  self.c14, self.c09, self.c16, self.c12, self.c06):
             cnt = 0
             for line in g(per):
+                if line.split()[1] in ("kwsh", "kw256", "kdivr", "kmagn"):
+                    continue        # doc-hidden helpers called directly (also outside their contract): not public operations
                 yield line
                 cnt += 1
                 if cnt >= per * 2: break
